@@ -26,7 +26,8 @@ PROPERTY = "C31"
 LEVEL = "model_checking"
 RULE = (
     "(IF) U-PROB instances (levels 1,2) with an interpreted function in a precondition (G(n)) or an "
-    "effect value (n:=F(n)), no effect on the unbounded fluent m; (OS) base + core level-1 instances x "
+    "effect value (n:=F(n)), no effect on the unbounded fluent m, plus the 32 hand-enumerated ifchain problems "
+    "(dependency on an interpreted function through a second fluent x reader x action declaration order); (OS) base + core level-1 instances x "
     "all gain vectors over {3, 1/2, -1} for the soft goals {b, p(o2), n=1} (and all 2-goal subsets); "
     "states/transitions = full reachable graph of the original problem explored by the reference; "
     "non-trivial = solvable instance"
@@ -64,6 +65,8 @@ def _if_ids(tier):
                     continue
                 cid = tuple(sorted([c, (s, i)], key=lambda t: uprob.BASE_SLOTS.index(t[0])))
                 out.append((2, cid))
+    for i in range(len(IFCHAIN)):
+        out.append((1, (("ifchain", i),)))
     seen = set()
     res = []
     for lv, cid in out:
@@ -183,11 +186,58 @@ def _plan_steps(plan):
     return [(ai.action.name, tuple(_unval(p) for p in ai.actual_parameters)) for ai in plan.actions]
 
 
+# family ifchain: a fluent that depends on an interpreted function only THROUGH another fluent
+# (scaled := raw + 1, raw := F(raw)), read by a precondition or the goal; every declaration order of
+# the actions, one or two interpreted-function effects
+def _ifchain_specs():
+    from itertools import permutations
+
+    I = uprob.I
+    fl = lambda n: ("f", n)
+    E = lambda f, v: ("assign", fl(f), v, None, ())
+    out = []
+    for dep_name, dep, want in [("raw+1", ("+", fl("raw"), I(1)), 4), ("raw", fl("raw"), 3)]:
+        for reader in ("pre", "goal"):
+            for two in (False, True):
+                acts = {
+                    "measure": {"name": "measure", "params": (), "pre": (), "eff": (E("raw", ("ifun", "F", fl("raw"))),) + ((E("aux", ("ifun", "F", fl("aux"))),) if two else ())},
+                    "scale": {"name": "scale", "params": (), "pre": (), "eff": (E("scaled", dep),)},
+                }
+                names = ["measure", "scale"]
+                if reader == "pre":
+                    acts["finish"] = {"name": "finish", "params": (), "pre": (("eq", fl("scaled"), I(want)),), "eff": (E("done", ("b", True)),)}
+                    names.append("finish")
+                    goals = (fl("done"),)
+                else:
+                    goals = (("eq", fl("scaled"), I(want)),)
+                for order in permutations(names):
+                    ps = {
+                        "name": "ifchain", "types": (("T", None),), "objects": (("o1", "T"),),
+                        "fluents": (
+                            ("raw", ("int", 0, 3), (), I(2)), ("aux", ("int", 0, 3), (), I(2)),
+                            ("scaled", ("int", 0, 4), (), I(0)), ("done", ("bool",), (), ("b", False)),
+                        ),
+                        "ifuns": (("F", ("int", None, None), (("int", None, None),), "sqm1"),),
+                        "actions": tuple(acts[n] for n in order),
+                        "init": (), "goals": goals, "traj": (), "metric": None,
+                    }
+                    out.append(("ifchain:%s/%s/%s/%s" % (dep_name, reader, "2if" if two else "1if", ">".join(order)), ps))
+    return out
+
+
+IFCHAIN = _ifchain_specs()
+
+
 def check_if(cid, acc):
+    if cid and cid[0][0] == "ifchain":
+        lab, ps = IFCHAIN[cid[0][1]]
+        return check_if_spec(ps, lab, cid, acc)
+    return check_if_spec(uprob.make(dict(cid)), uprob_label(cid), cid, acc)
+
+
+def check_if_spec(ps, lab, cid, acc):
     from unified_planning.engines.results import POSITIVE_OUTCOMES
 
-    ps = uprob.make(dict(cid))
-    lab = uprob_label(cid)
     b = su.build(ps, acc)
     if b is None:
         return
